@@ -467,7 +467,10 @@ func method(m *spec.Method) {
 			}
 			for _, r := range m.Responses {
 				r := r
-				dsl.Response(r.Status, func() {
+				fn := func() {
+					if r.CodeInside {
+						dsl.Code(r.Status)
+					}
 					if r.CT != "" {
 						dsl.ContentType(r.CT)
 					}
@@ -486,7 +489,12 @@ func method(m *spec.Method) {
 					if r.Empty {
 						dsl.Body(dsl.Empty)
 					}
-				})
+				}
+				if r.CodeInside {
+					dsl.Response(fn)
+				} else {
+					dsl.Response(r.Status, fn)
+				}
 			}
 			errorResponses(m.Errors)
 		})
